@@ -246,7 +246,7 @@ PROPS = {
     "C18": {"modules": ["Netconan.Props.C18", "Netconan.Props.C18Data"], "scopes": [jun_checks.scope],
             "checker_cmd": "cd lean && lake build Netconan.Props.C18 && lake env lean <#print axioms audit>", "rule": JUN_RULE,
             "assumptions": ["FAMILY/ENCODING/EXTRA/_fixedc tables are regenerated from the live module on every run; the functions are modelled by hand and tied by correspondence"]},
-    "C06": {"modules": ["Netconan.Props.C06"], "scopes": [iptext_checks.scope, iptext_checks.io_scope, iptext_checks.long_line_scope, ip_checks.text_history_scope, ip_scenarios.scenario_scope],
+    "C06": {"modules": ["Netconan.Props.C06", "Netconan.Props.SrcIp"], "scopes": [iptext_checks.scope, iptext_checks.io_scope, iptext_checks.long_line_scope, ip_checks.text_history_scope, ip_scenarios.scenario_scope],
             "checker_cmd": "cd lean && lake build Netconan.Props.C06 && lake env lean <#print axioms audit>",
             "rule": "exhaustive strings up to length 4 (quick) / 5 (thorough) over the boundary alphabets '025.a /', '1f:g /', '1f:.% '; structured dotted "
                     "and colon-separated tokens with near-miss parts and delimiters; every h::l split shape; realistic multi-token lines; "
